@@ -129,17 +129,38 @@ func observe(b *maps.Bimap[int, int], univ []int, stop int) obs {
 	return o
 }
 
+// z prints an int as a Coq Z term; the extreme values are written as powers of
+// two (a 19-digit literal costs coqc about a millisecond to parse).
+func z(n int) string {
+	switch n {
+	case 1 << 40:
+		return "(2^40)"
+	case -1 << 63:
+		return "(-2^63)"
+	case 1<<63 - 1:
+		return "(2^63-1)"
+	}
+	return core.Z(n)
+}
+func zList(s []int) string {
+	parts := make([]string, len(s))
+	for i, v := range s {
+		parts[i] = z(v)
+	}
+	return core.List(parts)
+}
+
 func pairList(ps [][2]int) string {
 	parts := make([]string, len(ps))
 	for i, p := range ps {
-		parts[i] = core.Pair(core.Z(p[0]), core.Z(p[1]))
+		parts[i] = "ZZ " + z(p[0]) + " " + z(p[1])
 	}
 	return core.List(parts)
 }
 func zbList(vs []int, oks []bool) string {
 	parts := make([]string, len(vs))
 	for i := range vs {
-		parts[i] = core.Pair(core.Z(vs[i]), core.Bool(oks[i]))
+		parts[i] = "ZB " + z(vs[i]) + " " + core.Bool(oks[i])
 	}
 	return core.List(parts)
 }
@@ -152,7 +173,7 @@ func boolList(bs []bool) string {
 }
 func (o obs) coq() string {
 	return fmt.Sprintf("Obs %s %s %s %s %s %s %s %s", zbList(o.fwdV, o.fwdOk), zbList(o.revV, o.revOk),
-		boolList(o.cf), boolList(o.cr), core.Z(o.length), pairList(o.rng), core.Z(o.stop), pairList(o.stopped))
+		boolList(o.cf), boolList(o.cr), z(o.length), pairList(o.rng), z(o.stop), pairList(o.stopped))
 }
 
 // oracle: the property itself, on one observed Bimap against its reference.
@@ -219,7 +240,6 @@ func oracle(o obs, r *ref, univ []int) string {
 
 func run(c *core.Ctx) {
 	c.ShardSize = 1000
-	// 1. exhaustive: every history of length <= L over keys {0,1} x values {0,1} on the zero value
 	u2 := []int{0, 1}
 	var alpha1 []Op
 	for _, k := range u2 {
@@ -231,12 +251,12 @@ func run(c *core.Ctx) {
 		alpha1 = append(alpha1, Op{Op: "RemoveForward", K: k}, Op{Op: "RemoveReverse", V: k})
 	}
 	alpha1 = append(alpha1, Op{Op: "Clear"})
-	L := c.N(5, 6, 6)
-	// rec enumerates the histories extending prefix by at most depth operations; onlyCloned skips those without a Clone
-	var rec func(prefix []Op, handles int, cloneBudget, depth int, onlyCloned bool)
-	rec = func(prefix []Op, handles, cloneBudget, depth int, onlyCloned bool) {
+	// rec enumerates the histories extending prefix by at most depth operations
+	// (at most cloneBudget of them Clone); onlyCloned skips those without a Clone
+	var rec func(prefix []Op, handles, cloneBudget, depth int, onlyCloned bool, visit func([]Op))
+	rec = func(prefix []Op, handles, cloneBudget, depth int, onlyCloned bool, visit func([]Op)) {
 		if !onlyCloned || handles > 1 {
-			exec(c, Case{Univ: u2, Ops: append([]Op(nil), prefix...), Mode: "last"})
+			visit(prefix)
 		}
 		if depth == 0 {
 			return
@@ -244,37 +264,55 @@ func run(c *core.Ctx) {
 		for h := 0; h < handles; h++ {
 			for _, o := range alpha1 {
 				o.H = h
-				rec(append(prefix, o), handles, cloneBudget, depth-1, onlyCloned)
+				rec(append(prefix, o), handles, cloneBudget, depth-1, onlyCloned, visit)
 			}
 			if cloneBudget > 0 {
-				rec(append(prefix, Op{Op: "Clone", H: h}), handles+1, cloneBudget-1, depth-1, onlyCloned)
+				rec(append(prefix, Op{Op: "Clone", H: h}), handles+1, cloneBudget-1, depth-1, onlyCloned, visit)
 			}
 		}
 	}
-	rec(nil, 1, 0, L, false)
-	// 2. exhaustive with Clone: every history of length <= LC with at most one Clone (two handles)
-	LC := c.N(4, 5, 5)
-	rec(nil, 1, 1, LC, true)
-	c.Exhaustive = true
-	c.Note(fmt.Sprintf("exhaustive: every history of length <= %d of Add/RemoveForward/RemoveReverse/Clear over keys {0,1} x values {0,1} on a zero-value Bimap; "+
-		"every history of length <= %d that may also Clone once and then act on either handle; plus random histories", L, LC))
-
-	// 3. random histories over 0..3 x 0..3, several clones, observed after every operation
+	// 1. exhaustive: every history of length <= L over keys {0,1} x values {0,1} on the zero value
+	// 2. exhaustive with Clone: every history of length <= LC with exactly one Clone, acting on both handles
+	L, LC := c.N(5, 6, 6), c.N(4, 5, 5)
+	exhaustive := func(visit func([]Op)) {
+		rec(nil, 1, 0, L, false, visit)
+		rec(nil, 1, 1, LC, true, visit)
+	}
+	// 3. random histories over 0..3 x 0..3 with up to 5 clones, observed after every operation
+	// 4. unusual keys and values: negative, huge, the extreme ints (and 0, the zero value a failed lookup returns)
 	u4 := []int{0, 1, 2, 3}
-	for i := c.N(500, 12000, 20000); i > 0; i-- {
-		n := 1 + c.Rng.Size(60)
-		univ := u4
+	odd := []int{-3, 0, 5, 1 << 40, -1 << 63, 1<<63 - 1}
+	nRandom, nOdd := c.N(500, 8000, 20000), c.N(100, 1500, 3000)
+	random := func(i int) Case {
+		if i >= nRandom {
+			return Case{Univ: odd, Ops: randomOps(c.Rng, odd, 1+c.Rng.Size(40), 4), Mode: "all"}
+		}
+		n, univ := 1+c.Rng.Size(60), u4
 		if c.Tier == "search" {
 			n = 1 + c.Rng.Size(400)
 			univ = []int{0, 1, 2, 3, 4, 5, 6, 7}[:c.Rng.Range(2, 8)]
 		}
-		exec(c, Case{Univ: univ, Ops: randomOps(c.Rng, univ, n, 6), Mode: "all"})
+		return Case{Univ: univ, Ops: randomOps(c.Rng, univ, n, 6), Mode: "all"}
 	}
-	// 4. unusual keys and values: negative, huge, the extreme ints (and 0, the zero value a failed lookup returns)
-	odd := []int{-3, 0, 5, 1 << 40, -1 << 63, 1<<63 - 1}
-	for i := c.N(100, 2000, 3000); i > 0; i-- {
-		exec(c, Case{Univ: odd, Ops: randomOps(c.Rng, odd, 1+c.Rng.Size(40), 4), Mode: "all"})
+	// the (long) random cases are spread evenly among the (short) exhaustive ones so that all shards cost the same
+	nExh := 0
+	exhaustive(func([]Op) { nExh++ })
+	stride := nExh/(nRandom+nOdd) + 1
+	i, r := 0, 0
+	exhaustive(func(ops []Op) {
+		exec(c, Case{Univ: u2, Ops: append([]Op(nil), ops...), Mode: "last"})
+		if i++; i%stride == 0 && r < nRandom+nOdd {
+			exec(c, random(r))
+			r++
+		}
+	})
+	for ; r < nRandom+nOdd; r++ {
+		exec(c, random(r))
 	}
+	c.Exhaustive = true
+	c.Note(fmt.Sprintf("exhaustive (%d histories): every history of length <= %d of Add/RemoveForward/RemoveReverse/Clear over keys {0,1} x values {0,1} on a zero-value Bimap; "+
+		"every history of length <= %d with one Clone at any position and the same operations on either handle; "+
+		"plus %d random histories of up to 60 operations over 0..3 x 0..3 with up to 5 clones and %d over unusual ints", nExh, L, LC, nRandom, nOdd))
 }
 
 func randomOps(r *core.Rand, univ []int, n, maxHandles int) []Op {
@@ -351,7 +389,7 @@ func exec(c *core.Ctx, cs Case) {
 		done := map[int]bool{}
 		for _, h := range hs {
 			if !done[h] {
-				parts = append(parts, core.Pair(core.Z(h), os[h].coq()))
+				parts = append(parts, "H "+z(h)+" ("+os[h].coq()+")")
 				done[h] = true
 			}
 		}
@@ -398,7 +436,7 @@ func exec(c *core.Ctx, cs Case) {
 					c.Count("add_fresh")
 				}
 				_ = ok2
-				term = fmt.Sprintf("CAdd %s %s %s", core.Z(o.H), core.Z(o.K), core.Z(o.V))
+				term = fmt.Sprintf("CAdd %s %s %s", z(o.H), z(o.K), z(o.V))
 				r.add(o.K, o.V)
 				b.Add(o.K, o.V)
 			case "RemoveForward":
@@ -408,7 +446,7 @@ func exec(c *core.Ctx, cs Case) {
 				} else {
 					c.Count("remove_forward_absent")
 				}
-				term = fmt.Sprintf("CRemoveForward %s %s", core.Z(o.H), core.Z(o.K))
+				term = fmt.Sprintf("CRemoveForward %s %s", z(o.H), z(o.K))
 				r.removeKey(o.K)
 				b.RemoveForward(o.K)
 			case "RemoveReverse":
@@ -418,7 +456,7 @@ func exec(c *core.Ctx, cs Case) {
 				} else {
 					c.Count("remove_reverse_absent")
 				}
-				term = fmt.Sprintf("CRemoveReverse %s %s", core.Z(o.H), core.Z(o.V))
+				term = fmt.Sprintf("CRemoveReverse %s %s", z(o.H), z(o.V))
 				r.removeValue(o.V)
 				b.RemoveReverse(o.V)
 			case "Clear":
@@ -427,7 +465,7 @@ func exec(c *core.Ctx, cs Case) {
 				} else {
 					c.Count("clear_nonempty")
 				}
-				term = fmt.Sprintf("CClear %s", core.Z(o.H))
+				term = fmt.Sprintf("CClear %s", z(o.H))
 				r.clear()
 				b.Clear()
 			case "Clone":
@@ -436,7 +474,7 @@ func exec(c *core.Ctx, cs Case) {
 				} else {
 					c.Count("clone_nonempty")
 				}
-				term = fmt.Sprintf("CClone %s", core.Z(o.H))
+				term = fmt.Sprintf("CClone %s", z(o.H))
 				refs = append(refs, r.clone())
 				cl := b.Clone()
 				bs = append(bs, &cl)
@@ -461,15 +499,15 @@ func exec(c *core.Ctx, cs Case) {
 			if o.Op == "Clone" {
 				witness = o.H
 			}
-			steps = append(steps, core.Pair(term, hobs(os, target, witness)))
+			steps = append(steps, "St ("+term+") "+hobs(os, target, witness))
 		case i == len(cs.Ops)-1:
-			steps = append(steps, core.Pair(term, hobs(os, allHandles()...)))
+			steps = append(steps, "St ("+term+") "+hobs(os, allHandles()...))
 		default:
-			steps = append(steps, core.Pair(term, "[]"))
+			steps = append(steps, "St ("+term+") []")
 		}
 	}
 	if both && removedPair {
 		c.Nontrivial() // an Add that evicted two different pairs, and a removal of an existing pair
 	}
-	c.Emit(fmt.Sprintf("Case %s %s %s [%s]", core.ZList(univ), core.Z(nilLen), initObs, strings.Join(steps, ";\n ")))
+	c.Emit(fmt.Sprintf("Case %s %s %s [%s]", zList(univ), z(nilLen), initObs, strings.Join(steps, ";\n ")))
 }
